@@ -187,10 +187,20 @@ fn err_event(api: &str, p: usize, limit: usize, e: &Error) -> Value {
 
 /// Growing windows offered to ONE receiver (the caller re-presents unconsumed bytes): stops at the first
 /// response or error. Events are the same `offer` events (the guard is per offer).
+/// the receiver of an offer: flows of different request methods, a third of them with an Expect handshake that timed out
+fn flow_for_offers(g: &GenHead) -> ureq_proto::client::flow::Flow<(), ureq_proto::client::flow::state::RecvResponse> {
+    let k = g.h + g.fields.len();
+    if k % 3 == 2 {
+        flow_recv_response_after_timeout(["POST", "PUT", "PATCH"][k % 3])
+    } else {
+        flow_recv_response(["GET", "POST", "PUT", "OPTIONS", "DELETE"][k % 5])
+    }
+}
+
 fn offer_sequence(t: &mut Tracer, g: &GenHead, ps: &[usize], api: &str) {
     let exp = expected_map(&g.fields);
     if api == "flow" {
-        let mut f = flow_recv_response(["GET", "POST", "PUT", "OPTIONS", "DELETE"][(g.h + g.fields.len()) % 5]);
+        let mut f = flow_for_offers(g);
         for &p in ps {
             let input = &g.bytes[..p.min(g.bytes.len())];
             match guarded(|| f.try_response(input)) {
@@ -237,7 +247,7 @@ fn offer_sequence(t: &mut Tracer, g: &GenHead, ps: &[usize], api: &str) {
 fn offer_flow(t: &mut Tracer, g: &GenHead, p: usize, api: &str) {
     let input = &g.bytes[..p];
     if api == "flow" {
-        let mut f = flow_recv_response(["GET", "POST", "PUT", "OPTIONS", "DELETE"][(g.h + g.fields.len()) % 5]);
+        let mut f = flow_for_offers(g);
         match guarded(|| f.try_response(input)) {
             None => t.ev(json!({"ev":"panic","during":"try_response"})),
             Some(Err(e)) => t.ev(err_event(api, p, 128, &e)),
@@ -518,6 +528,40 @@ pub fn c06(o: &Opts, t: &mut Tracer) -> Value {
                                         let ok = c == head.len() && !f.can_proceed() && matches!(guarded(|| f.try_response(nxt)), Some(Ok((n, Some(r)))) if n == nxt.len() && r.status() == 200);
                                         e["interim_ok"] = json!(ok);
                                     } else {
+                                        if (101..200).contains(&status) && *cl != "nonnum" && (status as usize + ci + ti) % 3 == 0 {
+                                            // an interim response other than 100 is followed by the final response on the same
+                                            // receiver: its framing is decided by ITS head, not by the interim one
+                                            let fin: &[u8] = if ti % 2 == 0 { b"HTTP/1.1 200 OK\r\nContent-Length: 5\r\n\r\n" } else { b"HTTP/1.1 200 OK\r\nTransfer-Encoding: chunked\r\n\r\n" };
+                                            let (fcl, fte, fclv) = if ti % 2 == 0 { ("n", "absent", 5u64) } else { ("absent", "chunked", 0u64) };
+                                            let mut e2 = json!({"ev":"cell","method":method,"status":200,"http10":false,"cl":fcl,"clv":limbs(fclv),"te":fte,"api":"flow",
+                                                                "res":"none","next":"none","mode":"","moden":limbs(0),"closedelim":false,"interim_ok":true,"after_interim":status});
+                                            match guarded(|| f.try_response(fin)) {
+                                                Some(Ok((_, Some(_)))) => {
+                                                    e2["res"] = json!("some");
+                                                    match guarded(|| f.proceed()) {
+                                                        Some(Some(RecvResponseResult::RecvBody(b))) => {
+                                                            let (m, n) = mode_json(b.body_mode());
+                                                            e2["next"] = json!("RecvBody");
+                                                            e2["mode"] = json!(m);
+                                                            e2["moden"] = limbs(n);
+                                                        }
+                                                        Some(Some(RecvResponseResult::Redirect(_))) => e2["next"] = json!("Redirect"),
+                                                        Some(Some(RecvResponseResult::Cleanup(_))) => e2["next"] = json!("Cleanup"),
+                                                        _ => {}
+                                                    }
+                                                }
+                                                Some(Err(er)) => {
+                                                    e2["res"] = json!("err");
+                                                    e2["err"] = json!(format!("{:?}", er));
+                                                }
+                                                _ => {}
+                                            }
+                                            // the interim cell itself: judged as usual below, from a twin flow
+                                            t.class("cell:after-interim");
+                                            t.ev(e2);
+                                            f = flow_recv_response(method);
+                                            let _ = guarded(|| f.try_response(head.as_bytes()));
+                                        }
                                         match guarded(|| f.proceed()) {
                                             None => {
                                                 t.ev(json!({"ev":"panic","during":"RecvResponse::proceed"}));
